@@ -90,6 +90,7 @@ def model_skeletons() -> dict[str, dict]:
             "ListsB": obj({"dates": arr(DATE), "optDates": arr(DATE)}, ["dates"], additionalProperties=False),
             "ListsC": obj({"matrix": arr(arr(INT)), "optUuids": arr(UUID)}, additionalProperties=False),
             "Tree": obj({"node-val": INT, "kids": arr(ref("Tree")), "parentRef": ref("Tree")}, ["node-val"], additionalProperties=False),
+            "Registry": {"type": "object", "additionalProperties": obj({"r-leaf": ref("Leaf"), "rOuter": ref("OuterA"), "r.tree": ref("Tree"), "rPing": ref("Ping")})},
             "Ping": obj({"to-pong": ref("Pong"), "n": INT}),
             "Pong": obj({"toPing": ref("Ping"), "s": STR}),
         }
